@@ -363,7 +363,7 @@ def parse_kani(out):
             if fails and all("unwinding assertion" in f["desc"] for f in fails):
                 r["status"] = "undecided"
                 r["reason"] = "unwinding bound too small"
-            if "unsupported" in t.lower() and any("unsupported" in f["desc"].lower() or "not currently supported" in f["desc"] for f in fails):
+            if any("unsupported" in f["desc"].lower() or "not currently supported" in f["desc"] for f in fails):
                 r["status"] = "undecided"
                 r["reason"] = "unsupported construct reached"
         r["raw_tail"] = t[-2500:]
